@@ -154,25 +154,31 @@ def getParams (j : Json) : Except String GParams := do
       pure (some (listFn l 0))
   pure { nodes := List.range n, nbrs := listFn adj [], tau := tau, gamma := gamma, ew := ew, nw := nw, sis := sis }
 
-def roundHalfEven (x : Rat) : Int :=
-  let f := x.floor
-  let d := x - f
-  if d < 1/2 then f else if d > 1/2 then f + 1 else if f % 2 = 0 then f else f + 1
-
-/-- argument normalisation (3148–3158): returns the list of initially infected nodes -/
-def normInit (n : Nat) (j : Json) : TM (List Node) := do
-  let kind ← (match getStr =<< fld j "kind" with | .ok k => pure k | .error e => TM.fail e)
+/-- the caller's initial-condition request as an `InitSpec` -/
+def getInitSpec (j : Json) : Except String InitSpec := do
+  let kind ← getStr (← fld j "kind")
   match kind with
-  | "list" => match getList getNat =<< fld j "nodes" with
-    | .ok l => pure l
-    | .error e => TM.fail e
-  | "default" => TM.popSample n 1
-  | "rho" => match getRat =<< fld j "rho" with
-    | .ok r =>
-      let k := roundHalfEven ((n : Rat) * r)
-      if k < 0 then TM.fail "ValueError" else TM.popSample n k.toNat
-    | .error e => TM.fail e
-  | _ => TM.fail "bad init kind"
+  | "list" => pure (InitSpec.nodes (← getList getNat (← fld j "nodes")))
+  | "single" => pure (InitSpec.single (← getNat (← fld j "node")))
+  | "default" => pure InitSpec.default
+  | "rho" => pure (InitSpec.rho (← getRat (← fld j "rho")))
+  | "both" => pure (InitSpec.both (← getList getNat (← fld j "nodes")) (← getRat (← fld j "rho")))
+  | _ => .error "bad init kind"
+
+/-- argument normalisation (3148–3158): the proved `InitArgs.normInit` on the parsed request -/
+def normInit (n : Nat) (j : Json) : TM (List Node) :=
+  match getInitSpec j with
+  | .ok sp => InitArgs.normInit n sp
+  | .error e => TM.fail e
+
+/-- op "norminit": argument normalisation on its own -/
+def normInitOp (j : Json) : Except String Json := do
+  let n ← getNat (← fld j "n")
+  let tape ← getList getDraw (← fld j "tape")
+  let init ← fld j "init"
+  match normInit n init { tape := tape } with
+  | .error e => pure (errObj e)
+  | .ok (l, ts) => pure (Json.mkObj [("ok", Json.bool true), ("infs", jArr jNat l), ("used", jNat (tape.length - ts.tape.length))])
 
 def jEvent (e : Rat × GEvent) : Json :=
   match e with
@@ -297,6 +303,18 @@ def c10 (j : Json) : Except String Json := do
   let answers := qs.map fun (v, t) => match statusAt (hs.getD v []) t with | some s => Json.str s | none => Json.null
   pure (Json.mkObj [("ok", Json.bool true), ("hist_wf", Json.bool histOK), ("arrays_eq", Json.bool arrEq),
     ("summary", jTraj spec), ("answers", Json.arr answers.toArray)])
+
+/-- op "hist": `_transform_to_node_history_` for one node -/
+def hist (j : Json) : Except String Json := do
+  let tmin ← getRat (← fld j "tmin")
+  let sir ← getBool (← fld j "sir")
+  let h ← if sir then do
+      let opt (x : Json) : Except String (Option Rat) := match x with | .null => pure none | y => (getRat y).map some
+      pure (History.sirHist tmin (← opt (← fld j "inf")) (← opt (← fld j "rec")))
+    else do
+      pure (History.sisHist tmin (← getList getRat (← fld j "infs")) (← getList getRat (← fld j "recs")))
+  pure (Json.mkObj [("ok", Json.bool true), ("hist", jArr (fun (e : Rat × String) => Json.arr #[jRat e.1, Json.str e.2]) h),
+    ("wf", Json.bool (histWF sir tmin h))])
 
 def ic (j : Json) : Except String Json := do
   let sir ← getBool (← fld j "sir")
@@ -761,6 +779,8 @@ def dispatch (j : Json) : Except String Json := do
   | "tv" => DrvPred.tv j
   | "c10" => DrvPred.c10 j
   | "ic" => DrvPred.ic j
+  | "hist" => DrvPred.hist j
+  | "norminit" => DrvG.normInitOp j
   | "subsample" => DrvHelp.subsample j
   | "timeshift" => DrvHelp.timeshift j
   | "degree" => DrvHelp.degree j
